@@ -84,8 +84,25 @@ func (s *obsStream) Write(p []byte) (int, error) {
 func (s *obsStream) Close() error {
 	s.mu.Lock()
 	s.closes++
+	s.cond.Broadcast()
 	s.mu.Unlock()
 	return s.Stream.Close()
+}
+
+// waitCloses: the endpoint has called Close at least n times
+func (s *obsStream) waitCloses(n int, d time.Duration) bool {
+	timedOut := false
+	t := time.AfterFunc(d, func() { s.mu.Lock(); timedOut = true; s.cond.Broadcast(); s.mu.Unlock() })
+	defer t.Stop()
+	s.mu.Lock()
+	defer s.mu.Unlock()
+	for s.closes < n {
+		if timedOut {
+			return false
+		}
+		s.cond.Wait()
+	}
+	return true
 }
 
 // waitConsumed: the endpoint has read total bytes and asked for more: the frame that ended at byte
@@ -121,6 +138,9 @@ type startPeer struct {
 	send    func(m net.Message) error
 	stream  net.Stream
 	cleanup func()
+	// hangup: the peer closes its side after what it has written so far (c10end.go).  The endpoint reads
+	// everything that was written, then the end of the stream.
+	hangup func()
 }
 
 func frameOf(m net.Message) []byte {
@@ -135,6 +155,7 @@ func newStartPeer(name, dir string, k int) (*startPeer, error) {
 		st := newHStream()
 		return &startPeer{name: name, stream: st,
 			send:    func(m net.Message) error { st.feed(frameOf(m)); return nil },
+			hangup:  func() { st.fail(io.EOF) },
 			cleanup: func() { st.fail(errors.New("harness: end of case")) }}, nil
 	case "mem-pipe":
 		// net.Pipe of the standard library is synchronous: "already written" is a writer blocked in Write
@@ -154,6 +175,11 @@ func newStartPeer(name, dir string, k int) (*startPeer, error) {
 				q <- m
 				time.Sleep(300 * time.Microsecond) // let the writer reach its Write
 				return nil
+			},
+			hangup: func() {
+				// synchronous pipe: the peer's last Write returns when the endpoint has read it; then it closes
+				waitUntil(4*time.Second, func() bool { return atomic.LoadInt32(&pending) == 0 })
+				a.Close()
 			},
 			cleanup: func() { a.Close(); b.Close(); close(q) }}, nil
 	}
@@ -221,6 +247,7 @@ func newStartPeer(name, dir string, k int) (*startPeer, error) {
 		}
 	}
 	return &startPeer{name: name, stream: stream, send: peer.Send,
+		hangup:  func() { peer.Close() },
 		cleanup: func() { peer.Close(); stream.Close(); l.Close() }}, nil
 }
 
